@@ -452,6 +452,10 @@ func c12gen(r *rand.Rand, tier string, emit func(string)) {
 // ---------------------------------------------------------------- extractor: read/write sites of every Run field
 
 func extractC12(repo, genDir string) error {
+	// Drv/C12.lean takes the unroll constants from Gen/ExecLoop.lean (C13's extractor)
+	if err := extractC13(repo, genDir); err != nil {
+		return err
+	}
 	fset := token.NewFileSet()
 	fields := []string{"Interrupt", "Signals", "ExecFlags", "CurrEnv", "InstallDefer", "DeferOfFun", "PanicFun", "Panic", "DebugDepth"}
 	isField := map[string]bool{}
@@ -535,18 +539,19 @@ func extractC12(repo, genDir string) error {
 		fmt.Fprintf(&b, "(%q, %q, %q, %d)", s.field, s.where, s.kind, cnt[s])
 	}
 	b.WriteString("]\n\n")
-	// does rundefer put back PanicFun / Panic?  (fixes/C12-panic-bookkeeping.diff)
+	// does reExecWithFlags remember Panic / PanicFun when it starts panicking and reinstate them on exit? (a642365)
 	saves := false
 	if src, err := os.ReadFile(filepath.Join(repo, "fast", "code.go")); err == nil {
-		txt := string(src)
+		txt := strings.Join(strings.Fields(string(src)), " ")
 		i := strings.Index(txt, "rundefer := func(fun func()) {")
 		j := strings.Index(txt, "run.Panic = recover()")
-		if i >= 0 && j > i {
-			saves = strings.Contains(txt[i:j], "defer restorePanic(run, run.PanicFun, run.Panic)") &&
-				strings.Contains(txt, "func restorePanic(run *Run, panicFun *Env, panicValue interface{}) {\n\trun.PanicFun = panicFun\n\trun.Panic = panicValue\n}")
+		k := strings.Index(txt, "panicking, panicking2 := true, false")
+		if k >= 0 && i > k && j > i {
+			saves = strings.Contains(txt[i:j], "if !saved { saved = true savedPanic, savedPanicFun = run.Panic, run.PanicFun }") &&
+				strings.Contains(txt[k:i], "defer func() { if saved { run.Panic, run.PanicFun = savedPanic, savedPanicFun } }()")
 		}
 	}
-	fmt.Fprintf(&b, "/-- `rundefer` saves `run.PanicFun`, `run.Panic` on entry and puts them back on exit -/\ndef savesPanic : Bool := %v\n\nend Gen.RunFields\n", saves)
+	fmt.Fprintf(&b, "/-- `reExecWithFlags` saves `run.Panic`, `run.PanicFun` when it starts panicking and reinstates them when it is left -/\ndef savesPanic : Bool := %v\n\nend Gen.RunFields\n", saves)
 	return os.WriteFile(filepath.Join(genDir, "RunFields.lean"), []byte(b.String()), 0o644)
 }
 
